@@ -17,26 +17,54 @@ EXTENDS Naturals, Sequences, FiniteSets, TLC
 
 CONSTANTS Repaired,
           MaxStyles,    \* bound on TableStyle objects created in one behaviour
-          OwnFields, BorderFields, Values   \* customisation menu: attributes of TableStyle / of its BorderStyle
+          OwnFields, BorderFields, Values   \* customisation menu of the model checker: attributes of TableStyle / BorderStyle, values
 
 Kinds == {"borderless", "compact", "ascii", "solid"}
 BaseOf(kind) == CASE kind \in {"borderless", "compact"} -> "none" [] kind = "ascii" -> "ascii" [] kind = "solid" -> "solid"
 
-\* BorderStyle defaults per factory (only the attributes the menu can touch or the factories write are kept;
-\* the glyphs of the solid style are written H V X)
-AllBorder == {"line_ht_char", "line_hc_char", "line_vc_char", "crossing_c_char"}
+\* every attribute a table drawn with a style depends on.
+\* TableStyle: string-valued attributes (cell styles are written "" = None, "bold", ...), the list of column
+\* alignments and the default alignment (0 left, 1 right, 2 centred)
+OwnAll == {"padding_char", "cell_format", "header_cell_format", "cell_style", "header_cell_style"}
+\* BorderStyle: the fifteen characters and the style of the rules (glyphs of the solid style are written as letters)
+BorderAll == {"line_ht_char", "line_hc_char", "line_hb_char", "line_vl_char", "line_vc_char", "line_vr_char",
+              "corner_tl_char", "corner_tr_char", "corner_bl_char", "corner_br_char",
+              "crossing_c_char", "crossing_l_char", "crossing_t_char", "crossing_r_char", "crossing_b_char", "style"}
 BorderDefault(base) ==
-  CASE base = "none"  -> [line_ht_char |-> "", line_hc_char |-> "", line_vc_char |-> " ", crossing_c_char |-> ""]
-    [] base = "ascii" -> [line_ht_char |-> "-", line_hc_char |-> "-", line_vc_char |-> "|", crossing_c_char |-> "+"]
-    [] base = "solid" -> [line_ht_char |-> "H", line_hc_char |-> "H", line_vc_char |-> "V", crossing_c_char |-> "X"]
+  CASE base = "none"  -> [f \in BorderAll |-> IF f = "line_vc_char" THEN " " ELSE ""]
+    [] base = "ascii" -> [f \in BorderAll |-> IF f \in {"line_ht_char", "line_hc_char", "line_hb_char"} THEN "-"
+                                              ELSE IF f \in {"line_vl_char", "line_vc_char", "line_vr_char"} THEN "|"
+                                              ELSE IF f = "style" THEN "" ELSE "+"]
+    [] base = "solid" -> [line_ht_char |-> "H", line_hc_char |-> "H", line_hb_char |-> "H",
+                          line_vl_char |-> "V", line_vc_char |-> "V", line_vr_char |-> "V",
+                          corner_tl_char |-> "A", corner_tr_char |-> "B", corner_bl_char |-> "C", corner_br_char |-> "D",
+                          crossing_c_char |-> "X", crossing_l_char |-> "L", crossing_t_char |-> "T",
+                          crossing_r_char |-> "R", crossing_b_char |-> "U", style |-> ""]
 \* what TableStyle.<kind>() writes into the BorderStyle it obtained
 Overrides(kind, b) ==
   CASE kind = "borderless" -> [b EXCEPT !.line_hc_char = "=", !.line_vc_char = " ", !.crossing_c_char = " "]
     [] kind = "compact"    -> [b EXCEPT !.line_hc_char = "", !.line_vc_char = " ", !.crossing_c_char = ""]
     [] OTHER -> b
 OwnDefault(kind) ==
-  IF kind \in {"ascii", "solid"} THEN [padding_char |-> " ", cell_format |-> " {} "]
-  ELSE [padding_char |-> " ", cell_format |-> "{}"]
+  LET fmt == IF kind \in {"ascii", "solid"} THEN " {} " ELSE "{}"
+  IN [padding_char |-> " ", cell_format |-> fmt, header_cell_format |-> fmt, cell_style |-> "", header_cell_style |-> "",
+      aligns |-> <<>>, dflt |-> 0]
+
+\* the customisations.  An entry of a style's own history:
+\*   [f: attribute or method, v: string value, col, a: integers, seq: list of alignments]
+Entry(f, v, col, a, seq) == [f |-> f, v |-> v, col |-> col, a |-> a, seq |-> seq]
+AlignOps == {"set_column_alignment", "column_alignments", "default_column_alignment"}
+\* TableStyle.set_column_alignment(col, a): the list grows (filled with the default alignment) as needed
+SetColumn(al, dflt, col, a) ==
+  LET grown == IF col > Len(al) - 1 THEN al \o [j \in 1..((IF Len(al) > col THEN Len(al) - col ELSE col - Len(al)) + 1) |-> dflt] ELSE al
+  IN [grown EXCEPT ![col + 1] = a]
+\* one customisation applied to the attribute values [own, border] of a style
+ApplyEntry(e, h) ==
+  CASE h.f = "set_column_alignment" -> [e EXCEPT !.own.aligns = SetColumn(e.own.aligns, e.own.dflt, h.col, h.a)]
+    [] h.f = "column_alignments" -> [e EXCEPT !.own.aligns = h.seq]
+    [] h.f = "default_column_alignment" -> [e EXCEPT !.own.dflt = h.a]
+    [] h.f \in OwnAll -> [e EXCEPT !.own = [@ EXCEPT ![h.f] = h.v]]
+    [] OTHER -> [e EXCEPT !.border = [@ EXCEPT ![h.f] = h.v]]
 
 \* ------------------------------------------------------------------ components that are rendered
 \* component kinds; "trace" / "trace2" are error traces of exceptions raised at two different source lines
@@ -51,7 +79,7 @@ VARIABLES
   styles,    \* TableStyle objects: [kind, cell (its border_style), own (own attributes)]
   snip,      \* ExceptionTrace._FRAME_SNIPPET_CACHE: set of [frame, utf8] meaning "snippet of frame cached, drawn with/without UTF-8 glyphs"
   \* P-layer
-  own,       \* per TableStyle: its own history <<kind, <<field, value>>, ...>>
+  own,       \* per TableStyle: its own history: the factory call, then its customisations (Entry records)
   last       \* observation of the last operation
 vars == <<heap, single, styles, snip, own, last>>
 
@@ -72,19 +100,28 @@ Make(kind) ==
      IN /\ heap' = [h1 EXCEPT ![cell] = Overrides(kind, h1[cell])]
         /\ single' = IF Repaired THEN single ELSE [single EXCEPT ![base] = cell]
         /\ styles' = Append(styles, [kind |-> kind, cell |-> cell, own |-> OwnDefault(kind)])
-  /\ own' = Append(own, <<kind>>)
-  /\ last' = [op |-> "make", kind |-> kind, s |-> Len(styles) + 1, field |-> "", value |-> ""]
+  /\ own' = Append(own, <<Entry("make", kind, 0, 0, <<>>)>>)
+  /\ last' = [op |-> "make", kind |-> kind, s |-> Len(styles) + 1, field |-> "", value |-> "", col |-> 0, a |-> 0, seq |-> <<>>]
   /\ UNCHANGED snip
 
-\* style.<field> = value   /   style.border_style.<field> = value
+\* style.<field> = value   /   style.border_style.<field> = value      (string-valued attributes)
 Customise(s, field, value) ==
   /\ s \in 1..Len(styles)
-  /\ IF field \in OwnFields
+  /\ IF field \in OwnAll
      THEN /\ styles' = [styles EXCEPT ![s].own = [@ EXCEPT ![field] = value]] /\ heap' = heap
      ELSE /\ heap' = [heap EXCEPT ![styles[s].cell] = [@ EXCEPT ![field] = value]] /\ styles' = styles
-  /\ own' = [own EXCEPT ![s] = Append(@, <<field, value>>)]
-  /\ last' = [op |-> "custom", kind |-> "", s |-> s, field |-> field, value |-> value]
+  /\ own' = [own EXCEPT ![s] = Append(@, Entry(field, value, 0, 0, <<>>))]
+  /\ last' = [op |-> "custom", kind |-> "", s |-> s, field |-> field, value |-> value, col |-> 0, a |-> 0, seq |-> <<>>]
   /\ UNCHANGED <<single, snip>>
+
+\* style.set_column_alignment(col, a)  /  style.column_alignments = seq  /  style.default_column_alignment = a
+\* (every TableStyle object owns its list of alignments)
+Align(s, how, col, a, seq) ==
+  /\ s \in 1..Len(styles) /\ how \in AlignOps
+  /\ styles' = [styles EXCEPT ![s].own = ApplyEntry([own |-> @, border |-> <<>>], Entry(how, "", col, a, seq)).own]
+  /\ own' = [own EXCEPT ![s] = Append(@, Entry(how, "", col, a, seq))]
+  /\ last' = [op |-> "align", kind |-> "", s |-> s, field |-> how, value |-> "", col |-> col, a |-> a, seq |-> seq]
+  /\ UNCHANGED <<heap, single, snip>>
 
 \* ---- rendering a component on an I/O.  inst distinguishes separately built, equal instances.
 \* The error trace at debug verbosity shows a code snippet per frame; snippets are cached per frame.
@@ -111,12 +148,8 @@ Render(c, inst, io) ==
 \* ------------------------------------------------------------------ P-layer
 \* the attribute values a style built by its own history alone would have
 RECURSIVE Apply(_, _)
-Apply(e, h) == IF h = <<>> THEN e
-               ELSE LET f == Head(h)[1]
-                        v == Head(h)[2]
-                    IN Apply(IF f \in OwnFields THEN [e EXCEPT !.own = [@ EXCEPT ![f] = v]]
-                             ELSE [e EXCEPT !.border = [@ EXCEPT ![f] = v]], Tail(h))
-Alone(h) == Apply([own |-> OwnDefault(h[1]), border |-> Overrides(h[1], BorderDefault(BaseOf(h[1])))], Tail(h))
+Apply(e, h) == IF h = <<>> THEN e ELSE Apply(ApplyEntry(e, Head(h)), Tail(h))
+Alone(h) == Apply([own |-> OwnDefault(h[1].v), border |-> Overrides(h[1].v, BorderDefault(BaseOf(h[1].v)))], Tail(h))
 
 \* creating or customising one style never changes what a table built with another shows
 NoAliasing == \A s \in 1..Len(styles) : Effective(s) = Alone(own[s])
